@@ -16,6 +16,8 @@ type vhList struct {
 	Keys, KeyKinds                 []string
 	WriteCheck                     string
 	Fields, AllFields, SelFields   []string
+	SliceField                     string                // first slice-typed item field, if any
+	SetSlice                       func(it any, n int) // sets it to a slice of n zero elements
 	New                            func() Updater
 	Items                          func(l any) any
 	Slice                          func(l any) any
